@@ -86,7 +86,7 @@ def reset_end(ctx):
 def run(ctx):
     rend = reset_end(ctx)
     ctx.lean_check(MODULES, THEOREMS)
-    env = {"VERIF_N": ctx.scale(250, 6000), "VERIF_C07_RESET_END": rend,
+    env = {"VERIF_N": ctx.scale(1200, 30000), "VERIF_C07_RESET_END": rend,
            "VERIF_C07_CORPUS": os.path.join(core.ROOT, "corpus", "C07", "histories.txt")}
     if ctx.replay:
         env["VERIF_REPLAY"] = ctx.replay_line_file()
@@ -98,7 +98,7 @@ def run(ctx):
     ctx.classify(ctx.l2(outdir))
     if not ctx.replay:
         rc, out, outdir = ctx.go_test("./runner/llamarunner/", OVERLAY_LL, "^TestVerifC07LL$",
-                                      env={"VERIF_N": ctx.scale(2000, 40000)}, timeout=1500)
+                                      env={"VERIF_N": ctx.scale(4000, 100000)}, timeout=1500)
         if rc != 0:
             ctx.violation("driver-failed", "", out[-1500:], no_input=True)
         ctx.read_stats(outdir)
